@@ -281,6 +281,43 @@ theorem issue_eq_spec (st : UState) (seen : List NameKey) (reqs : List Req)
     · have e' : ¬ (r.nameKey == k) = true := by simpa using fun x => e x.symm
       simp [e, e']
 
+theorem lookup_resetDomain (st : UState) (d : Str) (k : NameKey) :
+    lookup (resetDomain st d) k = if k.1 = d then 0 else lookup st k := by
+  induction st with
+  | nil => simp [resetDomain, lookup]
+  | cons p rest ih =>
+    obtain ⟨k0, n⟩ := p
+    simp only [resetDomain]
+    by_cases h0 : k0.1 = d
+    · simp only [h0, if_true, ih, lookup]
+      by_cases e : k0 = k
+      · subst e; simp [h0]
+      · simp [e]
+    · simp only [h0, if_false, lookup, ih]
+      by_cases e : k0 = k
+      · subst e; simp [h0]
+      · simp [e]
+
+/-- Names issued for requests that all belong to the domain `d` depend on the state only through `d`'s counters. -/
+theorem issue_eq_spec_domain (d : Str) (st : UState) (seen : List NameKey) (reqs : List Req)
+    (hd : ∀ r ∈ reqs, r.key = d) (h : ∀ k : NameKey, k.1 = d → lookup st k = seen.count k) :
+    (issue st reqs).1 = specNames seen reqs := by
+  induction reqs generalizing st seen with
+  | nil => rfl
+  | cons r rs ih =>
+    have hr : r.nameKey.1 = d := hd r (by simp)
+    simp only [issue, specNames, request]
+    rw [h r.nameKey hr]
+    congr 1
+    apply ih
+    · intro r' hr'; exact hd r' (by simp [hr'])
+    · intro k hk
+      rw [lookup_bump, List.count_cons, h k hk, h r.nameKey hr]
+      by_cases e : k = r.nameKey
+      · subst e; simp
+      · have e' : ¬ (r.nameKey == k) = true := by simpa using fun x => e x.symm
+        simp [e, e']
+
 /-! ### Line post-processors -/
 
 theorem hasNonWs_append (a b : Str) : hasNonWs (a ++ b) = (hasNonWs a || hasNonWs b) := by
